@@ -136,8 +136,16 @@ func main() {
 	isolate := flag.Bool("isolate", false, "run every case in its own child process (used after a crash of the in-process run): a crash or hang becomes the case's panic")
 	only := flag.Int("only", -1, "child mode of -isolate: run only this case index and write it to <out>/only.json")
 	huge := flag.Int("huge", -1, "C15 child mode: run one huge-size scenario under an address-space limit and exit")
+	mmShape := flag.String("mmap-shape", "", "extract the shape of CSMatrix.Mmap / Merge from this Go source file into -out (a .v file)")
 	skel := flag.String("skeleton", "", "extract the MulVec protocol skeleton from this Go source file into -out (a .v file)")
 	flag.Parse()
+	if *mmShape != "" {
+		if err := extractMmapShape(*mmShape, *out); err != nil {
+			fmt.Fprintln(os.Stderr, err)
+			os.Exit(2)
+		}
+		return
+	}
 	if *skel != "" {
 		if err := extractSkeleton(*skel, *out); err != nil {
 			fmt.Fprintln(os.Stderr, err)
